@@ -152,6 +152,7 @@ class Deferred:
     """finding-tagged failures are emitted after the ordinary ones (at most 2 per id), so that they can never crowd out a new failure"""
     def __init__(self, r):
         self.r, self.late = r, {}
+        watchdog.hits = 0
 
     def case(self, key):
         self.r.case(key)
@@ -178,6 +179,25 @@ def _alarm(*_):
     raise Timeout()
 
 
+class watchdog:
+    """every executed operation runs under a timer: a carrier operation that appends to the list it iterates over never returns"""
+    hits = 0
+
+    def __init__(self, seconds):
+        self.seconds = seconds
+
+    def __enter__(self):
+        self.old = signal.signal(signal.SIGVTALRM, _alarm)
+        signal.setitimer(signal.ITIMER_VIRTUAL, self.seconds)
+
+    def __exit__(self, typ, val, tb):
+        signal.setitimer(signal.ITIMER_VIRTUAL, 0)
+        signal.signal(signal.SIGVTALRM, self.old)
+        if typ is Timeout and self.seconds > 1:
+            watchdog.hits += 1
+        return False
+
+
 def run(q, key, setup, op, results, operands, what, hint=None, probe=True, guard=False):
     """execute one program; hint: {clause prefix: finding id} for a known defect region of this very case"""
     q.case(key)
@@ -186,7 +206,7 @@ def run(q, key, setup, op, results, operands, what, hint=None, probe=True, guard
     tail = f"_fails = verify(globals(), {results!r}, _ops, _snaps, probe={probe})\nprint(_fails)\nassert not _fails, _fails\n"
     replay = PRE + body + tail
     if guard:
-        replay = PRE + "import signal\ndef _h(*a): raise AssertionError('operation did not terminate within 2 s')\nsignal.signal(signal.SIGALRM, _h); signal.setitimer(signal.ITIMER_REAL, 2.0)\n" + body + "signal.setitimer(signal.ITIMER_REAL, 0)\n" + tail
+        replay = PRE + "import signal\ndef _h(*a): raise AssertionError('operation did not terminate within 2 s of CPU time')\nsignal.signal(signal.SIGVTALRM, _h); signal.setitimer(signal.ITIMER_VIRTUAL, 2.0)\n" + body + "signal.setitimer(signal.ITIMER_VIRTUAL, 0)\n" + tail
     ns = dict(_BASE)
     hint = hint or {}
     try:
@@ -195,18 +215,14 @@ def run(q, key, setup, op, results, operands, what, hint=None, probe=True, guard
     except Exception as e:
         q.fail(f'{what}: set-up raises {type(e).__name__}: {str(e)[:120]}', key, None, replay)
         return None
+    if watchdog.hits >= 6 and not guard:
+        q.fail(f'{what}: not executed, 6 earlier operations did not terminate', key, None, replay)
+        return None
     try:
-        if guard:
-            old = signal.signal(signal.SIGALRM, _alarm)
-            signal.setitimer(signal.ITIMER_REAL, 0.1)
-        try:
+        with watchdog(0.1 if guard else 2.0):
             exec(op, ns)
-        finally:
-            if guard:
-                signal.setitimer(signal.ITIMER_REAL, 0)
-                signal.signal(signal.SIGALRM, old)
     except Timeout:
-        q.fail(f'{what}: does not terminate', key, 'no result after 0.1 s (list grows without bound)', replay, finding=hint.get('hang'))
+        q.fail(f'{what}: does not terminate', key, 'no result after %s s of CPU time (list grows without bound)' % (0.1 if guard else 2.0), replay, finding=hint.get('hang'))
         return None
     except Exception as e:
         q.fail(f'{what}: raises {type(e).__name__}: {str(e)[:160]}', key, None, replay, finding=hint.get('raise'))
@@ -237,12 +253,16 @@ def run_many(q, setup, operands, items, probe=True):
         snaps = ns['take_snaps'](ns, operands)
         for k, (key, op, results, what, hint) in enumerate(items):
             try:
-                exec(op, ns)
+                with watchdog(2.0):
+                    exec(op, ns)
                 if any(ns['cmp'](ns[g], ns[w]) for g, w in results):
                     bad.add(k)
                 elif probe:
                     for g, w in results:
                         ns['probe_result'](ns[g])
+            except Timeout:
+                bad = set(range(len(items)))
+                break
             except Exception:
                 bad.add(k)
         if ns['verify'](ns, [], operands, snaps, probe=False):
@@ -345,7 +365,7 @@ def construction(r, tier, seed):
                     run(q, ('zero vector', sh, nd, pat, give, z), sz, "c1 = +d0\n", [('d0', 'm0'), ('c1', 'm0')], OPS0, 'a zero vector among the dyads')
     for sh in shapes(tier):
         m, n = sh
-        for ku, kv in itertools.product('fci', repeat=2):
+        for ku, kv in list(itertools.product('fci', repeat=2)) + [('g', 'f'), ('c', 'g')]:
             u, v = vec(rng, m, ku), vec(rng, n, kv)
             u[0] = 2; v[-1] = 1
             s = f"u = {lit(u)}\nv = {lit(v)}\nd0 = D(u, v)\nm0 = osum([u], [v], ({m}, {n}))\n"
@@ -418,8 +438,8 @@ def unary_scalar(r, tier, seed):
     q.flush()
 
 
-@bound('pairs of carriers of one shape: shapes x (n1, n2) in {0,1,2}^2 (+3 thorough) x dtype patterns {ff,cc,fc,cf,ii}^2 [quick: 4x4]; d1+d2, d1-d2, +=, -= (result identity, '
-       'earlier copies untouched), chains a+b-a, carrier +- dense (full, row, column, scalar-broadcast shapes, real/complex/int) from either side, d += d under a watchdog')
+@bound('pairs of carriers of one shape: shapes x (n1, n2) in {0,1,2}^2 (+3 thorough) x dtype patterns {ff,cc,fc,ii}^2 [quick] / {ff,cc,fc,cf,ii,mix}^2 [thorough]; d1+d2, d1-d2, +=, -= (result identity, '
+       'earlier copies untouched), chains a+b-a, carrier +- dense (full, row-vector, 1 x n and m x 1 shapes broadcast to the carrier; real/complex/int) from either side, d += d under a watchdog')
 def binary(r, tier, seed):
     q = Deferred(r)
     rng = np.random.default_rng(seed + 152)
@@ -559,7 +579,7 @@ def contraction(r, tier, seed):
     for sh, nd, pat in configs(tier):
         m, n = sh
         s0 = carrier(rng, 0, sh, nd, pat)
-        res, lines, extra = [], [], []
+        res, lines = [], []
 
         def add(call, ref):
             k = len(res)
@@ -622,8 +642,8 @@ def contraction(r, tier, seed):
     q.flush()
 
 
-@bound('carriers without a shape (DyadCarrier() and copies, transposes, negations, multiples of it): neutral in + - += -= with shaped carriers on either side, '
-       'todense() is 0x0, contract() is 0, diagonal() empty, indexing gives an empty carrier; a shaped carrier emptied by zeroing or cancelling keeps its shape')
+@bound('carriers without a shape (DyadCarrier() and copies, transposes, negations, multiples of it): neutral in + - += -= with shaped carriers of 1-2 dyads on either side, '
+       'todense() is 0x0, contract() is 0, diagonal() is empty, n_dyads is 0')
 def unshaped(r, tier, seed):
     q = Deferred(r)
     rng = np.random.default_rng(seed + 156)
@@ -646,6 +666,8 @@ def programs(r, tier, seed):
     q = Deferred(r)
     nprog, depth = (150, 8) if tier == 'quick' else (1500, 12)
     for pi in range(nprog):
+        if watchdog.hits >= 6:
+            break
         rng = np.random.default_rng([seed, 157, pi])
         m, n = [(3, 3), (2, 4), (4, 2), (1, 3), (3, 1)][pi % 5]
         P = ['ff', 'cc', 'fc', 'cf', 'ii', 'mix']
@@ -731,8 +753,11 @@ def programs(r, tier, seed):
             names = [(p[0], p[1]) for p in pool] + ([(new, mnew)] if add is None and line.startswith(new) else [])
             tail = f"_fails = [(g, b) for g, w in {names!r} for b in cmp(globals()[g], globals()[w])]\nprint(_fails)\nassert not _fails, _fails\n"
             try:
-                exec(line, ns)
+                with watchdog(2.0):
+                    exec(line, ns)
                 fails = [(g, b) for g, w in names for b in ns['cmp'](ns[g], ns[w])]
+            except Timeout:
+                fails = [(a, 'does not terminate (no result after 2 s)')]
             except Exception as e:
                 fails = [(a, f'raises {type(e).__name__}: {str(e)[:120]}')]
             for g, b in fails:
